@@ -51,6 +51,10 @@ def run(rep):
     import proc
     import rewriteproc
     proc_cov = rewriteproc.stage(rep, proc.Tools(sc))
+    # the buffer the header values and the message itself are built in, against its index-level model and the append statement
+    # (tools/lbuf.py; C07 runs the long form)
+    import lbuf
+    bstage = lbuf.stage(rep, sc, random.Random(rep.seed * 7919 + 8), 700 if rep.tier == 'quick' else 6000, big=True)
     d.conclude('message.c (headers, message_write) <-> Model/Header.lean')
     vlib.lean_conclude(rep)
     applicable = [i for i, s in enumerate(spec) if s is not None]
@@ -79,6 +83,7 @@ def run(rep):
         'spec_failures': len(d.spec_fail),
         'sanitizer_faults': len(d.faults),
         'process_level_rewrite_under_faults': proc_cov,
+        'libks_buffer': bstage,
     })
     rep.assumptions += ['C locale / C.utf8', 'set values contain no newline or NUL and do not start with a blank (SetOk)',
                         'process level: single faults; the kernel enforces the file size limit as RLIMIT_FSIZE does (short count, then EFBIG)']
@@ -87,6 +92,13 @@ def run(rep):
 def replay(rep, path):
     import json
     j = json.load(open(path))
+    if str(j.get('stage', '')).startswith('libks buffer'):
+        import lbuf
+        sc = vlib.Scratch()
+        vlib.lean_gate(rep, 'C08', sc, [])
+        lbuf.replay(rep, sc, j)
+        rep.coverage.update({'evaluations': 1, 'distinct_nontrivial': 1})
+        return
     if j.get('stage') == 'process':
         import proc
         import rewriteproc
